@@ -26,6 +26,10 @@ TEMPLATES = [
     '{[#A][#B]}.{#A=C[N+]([$@l])(C)C,#B=[$@l]C[@k@l]}',
     '{[#A][#B]}.{#A=[O;0]C[$@l],#B=[$@l]C[N;w=0]}',
     '{[#A]|2}.{#A=[$][C;w=0.5]([H;w=0])[C;0][$]}',
+    # multivalent elements whose heavy-atom bonds lie between two of their valences (P at 4, S at 3 and 5)
+    '{[#A]}.{#A=OP(=O)O}',
+    '{[#A]|3}.{#A=[<@l]S(=O)(=O)CC[>@l]}',
+    '{[#A][#B]}.{#A=CS(=O)[$@l],#B=[$@l]P(=O)(C)[$@l]}',
 ]
 
 
